@@ -13,23 +13,23 @@ func genByteInContext(fmtName string) GenFn {
 	switch fmtName {
 	case "cbor":
 		prefixes = [][]byte{
-			{},                 // top level
-			{0x82},             // first element of a definite array
-			{0x82, 0x01},       // later element
-			{0x9f},             // element of an indefinite array
-			{0x9f, 0x01},       //
-			{0xa1},             // key of a definite map
+			{},                       // top level
+			{0x82},                   // first element of a definite array
+			{0x82, 0x01},             // later element
+			{0x9f},                   // element of an indefinite array
+			{0x9f, 0x01},             //
+			{0xa1},                   // key of a definite map
 			{0xa2, 0x61, 0x61, 0x01}, // later key
-			{0xa1, 0x61, 0x61}, // value of a definite map
-			{0xbf},             // key of an indefinite map
-			{0xbf, 0x61, 0x61}, // value in an indefinite map
+			{0xa1, 0x61, 0x61},       // value of a definite map
+			{0xbf},                   // key of an indefinite map
+			{0xbf, 0x61, 0x61},       // value in an indefinite map
 			{0xbf, 0x61, 0x61, 0x01}, // later key of an indefinite map
-			{0x81, 0x81},       // nested
-			{0x18},             // inside an integer argument
-			{0x62, 0x61},       // inside a text payload
-			{0x43, 0x01},       // inside a byte string payload
-			{0x5a, 0x00, 0x00}, // inside a length
-			{0xfa, 0x00},       // inside a float
+			{0x81, 0x81},             // nested
+			{0x18},                   // inside an integer argument
+			{0x62, 0x61},             // inside a text payload
+			{0x43, 0x01},             // inside a byte string payload
+			{0x5a, 0x00, 0x00},       // inside a length
+			{0xfa, 0x00},             // inside a float
 		}
 	case "ubj":
 		prefixes = [][]byte{
